@@ -20,7 +20,7 @@
 From SC Require Import Base.Prelude Resource.Impl Resource.Spec Resource.Pull Resource.ImplProofs Resource.PullProofs
   Resource.Flat Resource.FlatProofs Resource.Judge Excess.Change Excess.MergeExcess
   Conc.Lts Conc.LtsProofs Conc.SubProofs Conc.FlatInst Conc.Judge Conc.Lossy Conc.LossyPipe Conc.LossyProofs
-  Conc.LossyLayerProofs.
+  Conc.LossyLayerProofs Conc.LossyUoProofs Conc.C03VSubsInv Conc.C03JudgeSound Conc.C03JudgeSoundPid Conc.C03JudgeSoundColl.
 
 Section C03.
   Variable M : Type.
@@ -605,6 +605,54 @@ Section C03LossyClosed.
              m_eqb_eq ltb_irrefl ltb_trans ltb_total prog prog_ok v0 c0 c0_sorted id_tok id_of val_tok val_of lossy_of).
   Qed.
 
+  (* The same closed composition for an UPDATES-ONLY Collection.Pull without backpressure (any read
+     mask, any include predicate): it takes no snapshot and receives no seeds, so there is no
+     snapshot for the merger's edit script to be valid on; its place is taken by L = the contents
+     the deliveries lead from (those as of the last commit that had left the turnstile when the
+     subscription was registered): chain L (deliveries) (final contents).  For every program,
+     schedule and reader pace, once all calls have returned: in the merger's token domain
+         fold (pending in the merger) (fold (taken from the merger) L) = the final contents,
+     what was taken from the merger is a valid edit script on L, received ++ held (++ seeds: none)
+     = the merger's output through include and the read mask; once nothing is offered nothing is
+     pending; and a reader that keeps receiving (drained) gets there.  (Was: compared by the
+     harness only.) *)
+  Theorem C03_lossy_updates_only_converges_for_every_program_schedule_and_pace : forall sched l,
+    let st := lrun sched (s0, []) in
+    all_done (fst st) = true -> In l (snd st) -> lossy_of (ls_tid l) = Some None ->
+    exists u, In u (st_csubs (fst st)) /\ cs_tid u = ls_tid l /\ ls_ro l = cs_ro u /\
+      (ro_updates_only (cs_ro u) = true ->
+       (forall e, In e (cs_evs u) -> id_of (id_tok (ce_id e)) = ce_id e) ->
+       let X := c_items (w_c (st_w (fst st))) in
+       exists L, chain L (cs_evs u) X /\
+       (forall z, Change.fold_view (pending (ls_m l)) (Change.fold_view (ls_gotm l) (tokview L)) z = tokview X z) /\
+       valid_script (ls_gotm l) (tokview L) = true /\
+       ls_gotc l ++ olist (ls_slot l) ++ ls_seeds l = fmap (post r_filter None (cs_ro u)) (map (dec id_of val_of) (ls_gotm l)) /\
+       (ls_slot l = None ->
+        (forall z, Change.fold_view (ls_gotm l) (tokview L) z = tokview X z) /\
+        ls_gotc l = fmap (post r_filter None (cs_ro u)) (map (dec id_of val_of) (ls_gotm l)) /\
+        queue (ls_m l) = []) /\
+       (let l' := drained r_filter None id_of val_of l in
+        ls_slot l' = None /\ queue (ls_m l') = [] /\
+        (forall z, Change.fold_view (ls_gotm l') (tokview L) z = tokview X z) /\
+        valid_script (ls_gotm l') (tokview L) = true /\
+        ls_gotc l' = fmap (post r_filter None (cs_ro u)) (map (dec id_of val_of) (ls_gotm l')))).
+  Proof.
+    exact (lossy_layer_converges_updates_only m_eqb m_empty w_validate w_merge r_filter clock_at str_ltb idfun m_eqb_eq ltb_irrefl
+             ltb_trans ltb_total prog prog_ok v0 c0 c0_sorted id_tok id_of val_tok val_of lossy_of).
+  Qed.
+
+  (* what an updates-only subscription (backpressured or not: these are the raw deliveries) has been
+     delivered when all calls have returned leads, each event describing one transition, from some
+     contents to the final contents *)
+  Theorem C03_updates_only_deliveries_lead_to_contents : forall sched u,
+    let s := run sched s0 in
+    all_done s = true -> In u (st_csubs s) -> ro_updates_only (cs_ro u) = true ->
+    exists L, chain L (cs_evs u) (c_items (w_c (st_w s))).
+  Proof.
+    exact (deliveries_chain_done_uo m_eqb m_empty w_validate w_merge r_filter clock_at str_ltb idfun m_eqb_eq ltb_irrefl
+             ltb_trans ltb_total prog prog_ok v0 c0 c0_sorted).
+  Qed.
+
   (* every event a subscriber is ever delivered says by its kind whether the item existed: an ADD
      carries no old value, an UPDATE / REMOVE carries one (what C09's merge algebra relies on) *)
   Theorem C03_delivered_events_say_whether_the_item_existed : forall sched u,
@@ -618,6 +666,8 @@ End C03LossyClosed.
 Print Assumptions C03_lossy_converges_for_every_program_schedule_and_pace.
 Print Assumptions C03_lossy_reader_that_keeps_receiving_converges.
 Print Assumptions C03_delivered_events_say_whether_the_item_existed.
+Print Assumptions C03_lossy_updates_only_converges_for_every_program_schedule_and_pace.
+Print Assumptions C03_updates_only_deliveries_lead_to_contents.
 
 (* the judge's id table (the ids the run's deliveries mention, by position) satisfies the hypothesis *)
 Theorem C03_judge_id_table_round_trip : forall it id, In id it -> id_at it (tok_id it id) = id.
@@ -654,4 +704,189 @@ Proof.
   vm_compute. split; [reflexivity|]. repeat split; try discriminate.
   intros e [<-|[<-|[<-|[]]]]; reflexivity.
 Qed.
+
+(* the updates-only theorem's hypotheses are satisfiable: ONE writer Update a; Delete a, an updates-only Pull
+   without backpressure opened first, its consumer receiving once (the UPDATE) and then being behind (the
+   REMOVE held by Pull's goroutine); after draining it has received both *)
+Definition upd_del_uo : list fcall :=
+  [FUpdate "a" (mkF 7 0 0) plain_wo; FDelete "a" plain_wo; FSubL None (mkFRO None true None)].
+Example C03_nonvacuous_lossy_updates_only :
+  let cprog := map to_call upd_del_uo in
+  let ss := classify upd_del_uo (fun _ => O) [2; 0; 0; 0; 2; 1; 1]%nat in
+  let s00 := s0 cprog (init_v None) (init_c ab_init) in
+  let splain := run fmsg_eqb fzero fw_validate fw_merge fclock str_ltb None false false cprog (threads_of ss) s00 in
+  let it := tbl_ids splain in
+  let vt := tbl_vals splain in
+  let st := lrun fr_filter None (tok_id it) (id_at it) (tok_val vt) (val_at vt) fmsg_eqb fzero fw_validate fw_merge fclock
+                 str_ltb None false false cprog (lossy_of_prog None upd_del_uo) ss (s00, []) in
+  all_done (fst st) = true /\
+  match snd st, st_csubs (fst st) with
+  | [l], [u] =>
+      lossy_of_prog None upd_del_uo (ls_tid l) = Some None /\ cs_tid u = ls_tid l /\
+      ro_updates_only (cs_ro u) = true /\ List.length (cs_evs u) = 2%nat /\
+      (forall e, In e (cs_evs u) -> id_at it (tok_id it (ce_id e)) = ce_id e) /\
+      List.length (ls_gotc l) = 1%nat /\ ls_slot l <> None /\
+      List.length (ls_gotc (drained fr_filter None (id_at it) (val_at vt) l)) = 2%nat
+  | _, _ => False
+  end.
+Proof.
+  vm_compute. split; [reflexivity|]. repeat split; try discriminate.
+  intros e [<-|[<-|[]]]; reflexivity.
+Qed.
+
+(* ---------- soundness of the judge: cases whose subscribers are Value.Pull (Conc/C03JudgeSound.v) ---------- *)
+(* every Value.Pull subscriber of a reachable state (any algebra, program, schedule) was registered by the
+   thread whose call is that Value.Pull with those read options, that thread has returned, and no thread
+   registered two: what lets the judge identify a subscriber by its thread id *)
+Theorem C03_value_subscribers_are_their_threads :
+  forall (M : Type) m_eqb m_empty (writer : Type) (w_validate : writer -> option Z) w_merge (rmask : Type) clock_at str_ltb idfun
+         (prog : list (call M writer rmask)) v0 c0 sched,
+    let s := run m_eqb m_empty w_validate w_merge clock_at str_ltb idfun false false prog sched (s0 prog v0 c0) in
+    (forall u, In u (st_vsubs s) -> nth_error prog (vs_tid u) = Some (CSubV (vs_ro u))) /\
+    (forall u, In u (st_vsubs s) -> exists r, nth_error (st_pcs s) (vs_tid u) = Some (PDone r)) /\
+    NoDup (map (@vs_tid M rmask) (st_vsubs s)).
+Proof.
+  intros. destruct (vsubs_run m_eqb m_empty w_validate w_merge clock_at str_ltb idfun prog v0 c0 sched) as [A B C].
+  split; [exact A|]. split; [exact B|exact C].
+Qed.
+Print Assumptions C03_value_subscribers_are_their_threads.
+
+(* per subscriber, no side condition on the case: for every program over the flat algebra (no generating
+   call), every schedule, every Value.Pull subscriber u of the model's run (any read mask, seeded or
+   updates-only): an observed stream that matches the model's stream of u change by change and an observed
+   final Get that matches the model's satisfy the oracle's clause vview_ok -- C03_value_converges carried
+   through the judge's definitions *)
+Theorem C03_judge_value_stream_oracle_sound : forall (i : option idf) (prog : list fcall) (sched : list nat) vinit cinit
+        (u : vsub fmsg (list fld)) (ro : fro) obs fv,
+  (forall t c, nth_error (map to_call prog) t = Some c -> call_ok (idfun_of i) c) ->
+  sorted str_ltb (c_items (init_c cinit)) ->
+  let s := f_run false i prog sched vinit cinit in
+  all_done s = true -> In u (st_vsubs s) -> vs_ro u = to_ropts ro ->
+  list_match vc_matches (vstream_of u) obs = true ->
+  ofm_eqb (v_val (w_v (st_w s))) fv = true ->
+  vview_ok ro obs fv = true.
+Proof. exact judge_value_oracle_sound. Qed.
+Print Assumptions C03_judge_value_stream_oracle_sound.
+
+(* THE JUDGE, whole cases: on a forced-schedule case that passes c03_value_guard (computable from the case
+   alone, nothing runs the model: no subscriber without backpressure, no PullID, no collection stream
+   observed, initial contents sorted, no generating call, distinct thread ids on the observed value
+   streams -- programs, schedules, numbers of writers and of Value.Pull subscribers of ANY size),
+   `agrees` implies `C03_ok`.  The proof needs more than convergence: that EVERY observed stream is judged
+   against the right subscriber (agrees only says every SUBSCRIBER has a matching stream; the numbers are
+   equal and the thread ids distinct, so the streams are exactly the subscribers'), and that the read
+   options the oracle takes from the program are those the model's subscriber carries. *)
+Theorem C03_judge_sound_value_subscribers : forall c, c03_value_guard c = true -> agrees c = true -> C03_ok c = true.
+Proof. exact agrees_implies_C03_ok_value. Qed.
+Print Assumptions C03_judge_sound_value_subscribers.
+
+(* hence verdict 2 ("agrees with the model but the oracle fails") cannot occur on such a case *)
+Corollary C03_judge_never_verdict_2_value_subscribers : forall c, c03_value_guard c = true -> judge03 c <> 2.
+Proof. exact judge03_never_2_value. Qed.
+Print Assumptions C03_judge_never_verdict_2_value_subscribers.
+
+(* non-vacuity: two overlapping Sets and a Value.Pull, publications in commit order: guard, agrees (and so
+   C03_ok) hold; the guard does not exclude the violation either: the reordered observation passes the
+   guard, disagrees with the model and is judged 3 *)
+Definition inorder_case :=
+  CaseSched None None [] two_sets [2; 0; 0; 1; 1; 0; 1]%nat
+            [mkFO (Some (mkF 1 0 0)) 0; mkFO (Some (mkF 2 0 0)) 0; mkFO None 0] (Some (mkF 2 0 0)) []
+            [(2%nat, [mkOV (mkF 1 0 0) 1010 false false; mkOV (mkF 2 0 0) 1020 false false])] [] [].
+Example C03_nonvacuous_judge_sound_value_subscribers :
+  c03_value_guard inorder_case = true /\ agrees inorder_case = true /\ C03_ok inorder_case = true /\
+  c03_value_guard reordered_case = true /\ agrees reordered_case = false /\ judge03 reordered_case = 3.
+Proof. vm_compute. repeat split; reflexivity. Qed.
+
+(* ---------- soundness of the oracle for a PullID stream, per subscriber (Conc/C03JudgeSoundPid.v) ---------- *)
+(* for every program over the flat algebra (no generating call), every schedule, every seeded Collection
+   subscriber u of the model's run without include predicate (any read mask) and every id: a ValueChange
+   stream and a closed flag that match the model's `pull_id_from id` of u's collection stream (the clause of
+   `agrees` for a PullID thread), and a final List that matches the model's, satisfy the oracle's clause
+   pid_ok -- C03_pull_id_converges carried through the judge's definitions (List with the mask = List
+   without, masked afterwards: vlookup_c_list_mask) *)
+Theorem C03_judge_pull_id_stream_oracle_sound : forall (i : option idf) (prog : list fcall) (sched : list nat) vinit cinit
+        (u : csub fmsg (list fld)) (ro : fro) id vs b obs cl fc,
+  (forall t c, nth_error (map to_call prog) t = Some c -> call_ok (idfun_of i) c) ->
+  sorted str_ltb (c_items (init_c cinit)) ->
+  let s := f_run false i prog sched vinit cinit in
+  all_done s = true -> In u (st_csubs s) -> cs_ro u = to_ropts ro ->
+  r_updates_only ro = false -> r_include ro = None ->
+  pull_id_from id (cstream_of u) = (vs, b) ->
+  list_match vc_matches vs obs = true -> Bool.eqb b cl = true ->
+  list_eqb kv_eqb (final_list (w_c (st_w s))) fc = true ->
+  pid_ok id ro obs cl fc = true.
+Proof. exact judge_pull_id_oracle_sound. Qed.
+Print Assumptions C03_judge_pull_id_stream_oracle_sound.
+
+(* the hypotheses are satisfiable with an open stream: Update a and a masked PullID of a opened first: the
+   model's stream is the seed and the update, not closed; the matching observation passes pid_ok *)
+Definition upd_pid : list fcall := [FUpdate "a" (mkF 7 0 0) plain_wo; FSubID "a" (mkFRO (Some [Fa]) false None)].
+Example C03_nonvacuous_judge_pull_id_oracle :
+  let s := f_run false None upd_pid [1; 1; 0; 0; 0]%nat None ab_items in
+  let obs := [mkOV (mkF 1 0 0) 300 true false; mkOV (mkF 7 0 0) 1000 false false] in
+  all_done s = true /\ st_stutter s = 0%nat /\
+  map (fun u => (let '(vs, b) := pull_id_from "a" (cstream_of u) in (list_match vc_matches vs obs, b),
+                 ro_updates_only (cs_ro u))) (st_csubs s) = [((true, false), false)] /\
+  pid_ok "a" (mkFRO (Some [Fa]) false None) obs false (final_list (w_c (st_w s))) = true.
+Proof. vm_compute. repeat split; reflexivity. Qed.
+
+(* ---------- soundness of the oracle for a Collection.Pull stream, per subscriber (Conc/C03JudgeSoundColl.v) ---------- *)
+(* for every program over the flat algebra (no generating call), every schedule, every seeded Collection.Pull
+   subscriber u of the model's run without include predicate (any read mask): an observed stream that
+   matches the model's stream of u change by change (then it IS the model's stream: to_cc_of_match) and an
+   observed final List that matches the model's satisfy the oracle's clause cview_ok: the fold of the observed
+   changes and the observed List, masked, are the same map (both have distinct keys: the view by
+   C03_view_is_list_as_of_last_delivered's invariant, List because the contents stay sorted) --
+   C03_collection_converges carried through the judge's definitions *)
+Theorem C03_judge_collection_stream_oracle_sound : forall (i : option idf) (prog : list fcall) (sched : list nat) vinit cinit
+        (u : csub fmsg (list fld)) (ro : fro) obs fc,
+  (forall t c, nth_error (map to_call prog) t = Some c -> call_ok (idfun_of i) c) ->
+  sorted str_ltb (c_items (init_c cinit)) ->
+  let s := f_run false i prog sched vinit cinit in
+  all_done s = true -> In u (st_csubs s) -> cs_ro u = to_ropts ro ->
+  r_updates_only ro = false -> r_include ro = None ->
+  list_match cc_matches (cstream_of u) obs = true ->
+  list_eqb kv_eqb (final_list (w_c (st_w s))) fc = true ->
+  cview_ok ro obs fc = true.
+Proof. exact judge_collection_oracle_sound. Qed.
+Print Assumptions C03_judge_collection_stream_oracle_sound.
+
+(* the hypotheses are satisfiable by a non-trivial stream: two seeds through the mask [a], then the UPDATE *)
+Example C03_nonvacuous_judge_collection_oracle :
+  let ro := mkFRO (Some [Fa]) false None in
+  let s := f_run false None [FUpdate "a" (mkF 7 0 0) plain_wo; FSubC ro] [1; 0; 0; 0]%nat None
+                 [("a"%string, mkF 1 5 0, 300); ("b"%string, mkF 2 2 0, 310)] in
+  let obs := [mkOC "a" 300 1 None (Some (mkF 1 0 0)) true false; mkOC "b" 310 1 None (Some (mkF 2 0 0)) true true;
+              mkOC "a" 1000 2 (Some (mkF 1 0 0)) (Some (mkF 7 0 0)) false false] in
+  all_done s = true /\ st_stutter s = 0%nat /\
+  map (fun u => (list_match cc_matches (cstream_of u) obs, ro_updates_only (cs_ro u))) (st_csubs s) = [(true, false)] /\
+  final_list (w_c (st_w s)) = [("a"%string, mkF 7 0 0); ("b"%string, mkF 2 2 0)] /\
+  cview_ok ro obs (final_list (w_c (st_w s))) = true.
+Proof. vm_compute. repeat split; reflexivity. Qed.
+
+(* ... and the updates-only clause of cview_ok (no seed: the fold of the observed changes is right at every id
+   the stream mentions): every id of the stream is the id of a delivered event (no include predicate), so
+   C03_collection_updates_only_converges applies at it *)
+Theorem C03_judge_collection_updates_only_stream_oracle_sound : forall (i : option idf) (prog : list fcall) (sched : list nat)
+        vinit cinit (u : csub fmsg (list fld)) (ro : fro) obs fc,
+  (forall t c, nth_error (map to_call prog) t = Some c -> call_ok (idfun_of i) c) ->
+  sorted str_ltb (c_items (init_c cinit)) ->
+  let s := f_run false i prog sched vinit cinit in
+  all_done s = true -> In u (st_csubs s) -> cs_ro u = to_ropts ro ->
+  r_updates_only ro = true -> r_include ro = None ->
+  list_match cc_matches (cstream_of u) obs = true ->
+  list_eqb kv_eqb (final_list (w_c (st_w s))) fc = true ->
+  cview_ok ro obs fc = true.
+Proof. exact judge_collection_uo_oracle_sound. Qed.
+Print Assumptions C03_judge_collection_updates_only_stream_oracle_sound.
+
+Example C03_nonvacuous_judge_collection_updates_only_oracle :
+  let ro := mkFRO (Some [Fa]) true None in
+  let s := f_run false None [FUpdate "a" (mkF 7 0 0) plain_wo; FSubC ro] [1; 0; 0; 0]%nat None
+                 [("a"%string, mkF 1 5 0, 300); ("b"%string, mkF 2 2 0, 310)] in
+  let obs := [mkOC "a" 1000 2 (Some (mkF 1 0 0)) (Some (mkF 7 0 0)) false false] in
+  all_done s = true /\ st_stutter s = 0%nat /\
+  map (fun u => (list_match cc_matches (cstream_of u) obs, ro_updates_only (cs_ro u))) (st_csubs s) = [(true, true)] /\
+  cview_ok ro obs (final_list (w_c (st_w s))) = true.
+Proof. vm_compute. repeat split; reflexivity. Qed.
 
